@@ -24,6 +24,20 @@
 (*                     converted scalar values (ExactOver), and "a         *)
 (*                     candidate whose parameters match is not rejected"   *)
 (*                     (RejFail).                                          *)
+(*   VARIADIC candidates (c.v = TRUE: the LAST pattern of c.ps is the tail *)
+(*                     pattern, Python's *args).  Declaratively: the fixed *)
+(*                     parameters match the leading arguments under one    *)
+(*                     substitution sigma (FixedWalk); EVERY further       *)
+(*                     argument is an instance of the tail pattern under   *)
+(*                     SOME extension of sigma of its own (TailOk: the     *)
+(*                     variables bound by the fixed parameters constrain   *)
+(*                     every tail argument, a variable that only the tail  *)
+(*                     names is local to each tail argument - so tails may *)
+(*                     be heterogeneous); plain values in the tail promote *)
+(*                     like anywhere else; the result bindings are sigma   *)
+(*                     alone, so the output pattern must be closed under   *)
+(*                     the FIXED parameters' variables (type, scalar and   *)
+(*                     SIZE variables alike).                              *)
 (*                                                                         *)
 (* LEVEL B (implementation shaped; disagreement with the tree is DRIFT)    *)
 (*   MatchB            sequential bind-on-first-use / compare-afterwards   *)
@@ -35,6 +49,12 @@
 (*   PRankB            type_pattern.cpp ts_pattern_rank / scalar_.._rank   *)
 (*   ResolveB          try-match in registration order, stable sort by     *)
 (*                     rank, tie test on the first two survivors           *)
+(*   TailFromB         the tail loop of try_match: every tail argument is  *)
+(*                     matched in a throw-away COPY of the map made by the *)
+(*                     fixed parameters; rank += tail_rank * #tail + 1,    *)
+(*                     +1 per plain value in the tail (DRIFT level only)   *)
+(*   The B operators take a fault name ("none" = the tree); MCResolution's *)
+(*   named-fault configurations must violate level A.                      *)
 (*                                                                         *)
 (* Term representation (uniform, so that TLC never compares values of      *)
 (* different shapes): [k |-> kind, s |-> string payload, c |-> children].  *)
@@ -129,13 +149,28 @@ ParamWalk(p, a) ==
 
 RECURSIVE WalkFrom(_, _, _)
 WalkFrom(ps, as, i) == IF i > Len(ps) THEN Good({}) ELSE Both(ParamWalk(ps[i], as[i]), WalkFrom(ps, as, i + 1))
-CandWalk(c, args) == IF Len(c.ps) # Len(args) THEN Bad ELSE WalkFrom(c.ps, args, 1)
 
 Functional(cs) == \A x, y \in cs : x[1] = y[1] => x[2] = y[2]
 Bound(cs)      == {x[1] : x \in cs}
 SigmaOf(cs)    == [v \in Bound(cs) |-> (CHOOSE x \in cs : x[1] = v)[2]]
 
-(* a candidate matches: one substitution makes every parameter accept its argument, and the output is closed *)
+(* Variadic candidates: the last pattern is the tail pattern (always a time-series pattern).                         *)
+NFixed(c)   == IF c.v THEN Len(c.ps) - 1 ELSE Len(c.ps)
+TailPat(c)  == c.ps[Len(c.ps)]
+TailIdx(c, args) == IF c.v THEN (NFixed(c) + 1)..Len(args) ELSE {}
+(* the fixed parameters against the leading arguments: the constraints that make up the result bindings *)
+FixedWalk(c, args) == IF c.v THEN (IF Len(args) < NFixed(c) THEN Bad ELSE WalkFrom(SubSeq(c.ps, 1, NFixed(c)), args, 1))
+                      ELSE IF Len(c.ps) # Len(args) THEN Bad ELSE WalkFrom(c.ps, args, 1)
+(* ws extends cs: ws is functional on its own and agrees with cs wherever both bind *)
+Extends(cs, ws) == Functional(ws) /\ \A x \in cs, y \in ws : x[1] = y[1] => x[2] = y[2]
+(* one tail argument is an instance of the tail pattern under an extension of the fixed parameters' bindings *)
+TailArgOk(c, a, cs) == LET w == ParamWalk(TailPat(c), a) IN w.ok /\ Extends(cs, w.cs)
+TailOk(c, args, cs) == \A j \in TailIdx(c, args) : TailArgOk(c, args[j], cs)
+(* parameters accept the arguments; cs = the bindings (of the fixed parameters) *)
+CandWalk(c, args) == LET f == FixedWalk(c, args) IN IF f.ok /\ TailOk(c, args, f.cs) THEN f ELSE Bad
+
+(* a candidate matches: one substitution makes every parameter accept its argument (every tail argument under an
+   extension of its own), and the output is closed under it - type, scalar and size variables alike *)
 MatchesA(c, args) == LET w == CandWalk(c, args) IN w.ok /\ Functional(w.cs) /\ PVars(c.o) \subseteq Bound(w.cs)
 
 RECURSIVE Subst(_, _)
@@ -155,15 +190,20 @@ AFailCore(cands, args, rk, o) ==
         best == MinOf({rk[c.l] : c \in M})
         Best == {c \in M : rk[c.l] = best}
         selc == CHOOSE c \in cands : c.l = o.sel
-        w    == CandWalk(selc, args)
+        w    == FixedWalk(selc, args)
         sg   == SigmaOf(o.bind)
     IN  IF o.kind \notin {"ok", "nomatch", "ambiguous"} THEN "C19.resolution_raised_an_unexpected_error"
         ELSE IF o.kind = "ok" /\ ~(\E c \in cands : c.l = o.sel) THEN "C19.selected_candidate_is_not_a_member_of_the_family"
         ELSE IF o.kind = "ok" /\ ~w.ok THEN "C19.selected_candidate_does_not_match_arguments"
         ELSE IF o.kind = "ok" /\ ~Functional(w.cs) THEN "C19.variable_bound_to_two_types"
         ELSE IF o.kind = "ok" /\ ~Functional(o.bind) THEN "C19.variable_bound_to_two_types"
+        ELSE IF o.kind = "ok" /\ ~TailOk(selc, args, w.cs) THEN "C19.selected_variadic_candidate_does_not_match_a_tail_argument"
         ELSE IF o.kind = "ok" /\ ~(\A x \in w.cs : x[1] \in DOMAIN sg /\ sg[x[1]] = x[2])
              THEN "C19.reported_binding_is_not_the_matched_type"
+        ELSE IF o.kind = "ok" /\ selc.v /\ \E x \in o.bind : x[1] \notin Bound(w.cs)
+             THEN "C19.tail_argument_bound_a_variable_for_other_positions"
+        ELSE IF o.kind = "ok" /\ ~((PVars(selc.o) \cap SizeVars) \subseteq DOMAIN sg)
+             THEN "C19.output_size_is_not_explained_by_any_binding"
         ELSE IF o.kind = "ok" /\ ~(PVars(selc.o) \subseteq DOMAIN sg) THEN "C19.output_type_uses_an_unbound_variable"
         ELSE IF o.kind = "ok" /\ o.out # Subst(selc.o, sg) THEN "C19.output_type_is_not_substitution_of_bindings"
         ELSE IF M = {} /\ o.kind # "nomatch" THEN "C19.no_match_not_reported"
@@ -227,10 +267,44 @@ TryFrom(ps, as, i, m, adj) ==
          IN IF r.ok THEN TryFrom(ps, as, i + 1, r.m, adj + r.adj) ELSE [ok |-> FALSE, m |-> r.m, adj |-> adj + r.adj]
 
 EmptyMap == [v \in {} |-> 0]
-TryMatchB(c, args) ==
-    IF Len(c.ps) # Len(args) THEN [ok |-> FALSE, m |-> EmptyMap, adj |-> 0]
-    ELSE LET r == TryFrom(c.ps, args, 1, EmptyMap, 0)
-         IN IF r.ok /\ ~(PVars(c.o) \subseteq DOMAIN r.m) THEN [ok |-> FALSE, m |-> r.m, adj |-> r.adj] ELSE r
+
+(* Named faults of level B (realistic slips in try_match / ts_pattern_resolve; "none" = the tree):                    *)
+(*   tail_scalar_shares_map     a plain value in the tail is matched in the shared map instead of the scoped copy     *)
+(*   tail_ts_shares_map         a time-series tail argument is matched in the shared map instead of the scoped copy   *)
+(*   tail_ignores_fixed_bindings  the tail scope starts empty instead of as a copy of the fixed parameters' map       *)
+(*   tail_first_argument_only   only the first tail argument is matched (loop leaves after one tail argument)         *)
+(*   unbound_output_size_defaults  an output size variable that nothing binds falls back to the pattern's size 0      *)
+Faults == {"none", "tail_scalar_shares_map", "tail_ts_shares_map", "tail_ignores_fixed_bindings",
+           "tail_first_argument_only", "unbound_output_size_defaults"}
+
+(* the tail loop of try_match: argument j against the tail pattern pt in a scope derived from m *)
+RECURSIVE TailFromB(_, _, _, _, _, _)
+TailFromB(pt, as, j, m, adj, fault) ==
+    IF j > Len(as) THEN [ok |-> TRUE, m |-> m, adj |-> adj]
+    ELSE LET plain == as[j].k = "sc"
+             scope == IF fault = "tail_ignores_fixed_bindings" THEN EmptyMap ELSE m            \* ResolutionMap tail_scope = map;
+             r     == IF plain THEN PromoteB(pt, as[j], scope) ELSE MatchB(pt, as[j], scope)
+             adj2  == adj + (IF plain THEN 1 ELSE 0)
+             keep  == (plain /\ fault = "tail_scalar_shares_map") \/ (~plain /\ fault = "tail_ts_shares_map")
+             m2    == IF keep THEN r.m ELSE m                                                   \* the scope is thrown away
+         IN  IF ~r.ok THEN [ok |-> FALSE, m |-> m2, adj |-> adj2]
+             ELSE IF fault = "tail_first_argument_only" THEN [ok |-> TRUE, m |-> m2, adj |-> adj2]
+             ELSE TailFromB(pt, as, j + 1, m2, adj2, fault)
+
+(* is the output pattern resolvable from the map (ts_pattern_resolve # nullptr) *)
+OutClosedB(c, m, fault) == (PVars(c.o) \ (IF fault = "unbound_output_size_defaults" THEN SizeVars ELSE {})) \subseteq DOMAIN m
+
+(* rank of one parameter pattern on its own (operator_dispatch_detail::param_pattern_rank): defined with RankB below *)
+TryMatchBF(c, args, tailrank, fault) ==
+    IF ~c.v
+    THEN IF Len(c.ps) # Len(args) THEN [ok |-> FALSE, m |-> EmptyMap, adj |-> 0]               \* normalize_call rejects
+         ELSE LET r == TryFrom(c.ps, args, 1, EmptyMap, 0)
+              IN IF r.ok /\ ~OutClosedB(c, r.m, fault) THEN [ok |-> FALSE, m |-> r.m, adj |-> r.adj] ELSE r
+    ELSE IF Len(args) < NFixed(c) THEN [ok |-> FALSE, m |-> EmptyMap, adj |-> 0]                \* missing required argument
+    ELSE LET up == tailrank * (Len(args) - NFixed(c)) + 1                                      \* added before any matching
+             r  == TryFrom(SubSeq(c.ps, 1, NFixed(c)), args, 1, EmptyMap, up)
+             t  == IF r.ok THEN TailFromB(TailPat(c), args, NFixed(c) + 1, r.m, r.adj, fault) ELSE r
+         IN  IF t.ok /\ ~OutClosedB(c, t.m, fault) THEN [ok |-> FALSE, m |-> t.m, adj |-> t.adj] ELSE t
 
 (* the documented rank: [st |-> structural cost, vs |-> {<<variable, cost at this occurrence>>}] *)
 Half(b)    == IF b \div 2 < 1 THEN 1 ELSE b \div 2
@@ -257,7 +331,11 @@ RECURSIVE SumMin(_, _)
 SumMin(vs, names) == IF names = {} THEN 0
                      ELSE LET v == CHOOSE x \in names : TRUE
                           IN MinOf({x[2] : x \in {y \in vs : y[1] = v}}) + SumMin(vs, names \ {v})
-RankB(c) == LET r == RankFrom(c.ps, 1) IN r.st + SumMin(r.vs, {x[1] : x \in r.vs})
+RankOf(ps) == LET r == RankFrom(ps, 1) IN r.st + SumMin(r.vs, {x[1] : x \in r.vs})
+RankB(c) == RankOf(SubSeq(c.ps, 1, NFixed(c)))                 \* operator_rank(params, skip_variadic_tail = impl.variadic)
+TailRankB(c) == IF c.v THEN RankOf(<<TailPat(c)>>) ELSE 0      \* param_pattern_rank(impl.params.back())
+TryMatchFB(c, args, fault) == TryMatchBF(c, args, TailRankB(c), fault)
+TryMatchB(c, args) == TryMatchFB(c, args, "none")
 
 (* type_pattern.cpp ts_pattern_rank / scalar_pattern_rank summed over the parameters (no budget, no de-duplication) *)
 PRankS(p) == IF p.k = "sv" THEN 100 ELSE 0
@@ -284,9 +362,20 @@ StableSort(s) == IF s = <<>> THEN <<>> ELSE InsertStable(StableSort(SubSeq(s, 1,
 
 MapPairs(m) == {<<v, m[v]>> : v \in DOMAIN m}
 
+(* substitution as the (faulty) tree computes it: an unbound size variable falls back to the pattern's size 0 *)
+RECURSIVE SubstF(_, _)
+SubstF(p, sg) ==
+    CASE p.k \in {"sv", "tv"} -> sg[p.s]
+      [] p.k = "conc"         -> p.c[1]
+      [] p.k = "TSL"          -> Tm("TSL", IF p.s \in SizeVars THEN (IF p.s \in DOMAIN sg THEN sg[p.s].s ELSE "0") ELSE p.s,
+                                    <<SubstF(p.c[1], sg)>>)
+      [] Len(p.c) = 0         -> p
+      [] Len(p.c) = 1         -> Tm(p.k, p.s, <<SubstF(p.c[1], sg)>>)
+      [] OTHER                -> Tm(p.k, p.s, <<SubstF(p.c[1], sg), SubstF(p.c[2], sg)>>)
+
 (* fam: sequence of candidates in registration order *)
-ResolveB(fam, args) ==
-    LET tried == [i \in 1..Len(fam) |-> TryMatchB(fam[i], args)]
+ResolveFB(fam, args, fault) ==
+    LET tried == [i \in 1..Len(fam) |-> TryMatchFB(fam[i], args, fault)]
         entry(i) == [l |-> fam[i].l, rank |-> RankB(fam[i]) + tried[i].adj, m |-> tried[i].m, o |-> fam[i].o]
         RECURSIVE Surv(_)
         Surv(i) == IF i > Len(fam) THEN <<>> ELSE (IF tried[i].ok THEN <<entry(i)>> ELSE <<>>) \o Surv(i + 1)
@@ -295,16 +384,19 @@ ResolveB(fam, args) ==
         ELSE IF Len(sorted) > 1 /\ sorted[1].rank = sorted[2].rank
         THEN [kind |-> "ambiguous", sel |-> "", bind |-> {}, out |-> SIG,
               tied |-> {sorted[i].l : i \in {j \in 1..Len(sorted) : sorted[j].rank = sorted[1].rank}}]
-        ELSE [kind |-> "ok", sel |-> sorted[1].l, bind |-> MapPairs(sorted[1].m), out |-> Subst(sorted[1].o, sorted[1].m),
+        ELSE [kind |-> "ok", sel |-> sorted[1].l, bind |-> MapPairs(sorted[1].m), out |-> SubstF(sorted[1].o, sorted[1].m),
               tied |-> {}]
+ResolveB(fam, args) == ResolveFB(fam, args, "none")
 
 (* level B's per-candidate predictions: base rank, effective rank, ts_pattern_rank sum, survivor? *)
 PredictB(c, args) == LET t == TryMatchB(c, args)
                      IN [l |-> c.l, base |-> RankB(c), eff |-> RankB(c) + t.adj, prank |-> PRankB(c), m |-> t.ok]
 
 -----------------------------------------------------------------------------
-(* The pools.  A candidate is [l |-> label, ps |-> parameter patterns, o |-> output pattern].                        *)
-Cand(l, ps, o) == [l |-> l, ps |-> ps, o |-> o]
+(* The pools.  A candidate is [l |-> label, ps |-> parameter patterns, o |-> output pattern, v |-> variadic?]; when v  *)
+(* is TRUE the last pattern of ps is the tail pattern (zero or more trailing arguments).                             *)
+Cand(l, ps, o)  == [l |-> l, ps |-> ps, o |-> o, v |-> FALSE]
+VCand(l, ps, o) == [l |-> l, ps |-> ps, o |-> o, v |-> TRUE]
 vS == SV("$S")
 vR == SV("$R")
 vK == SV("$K")
@@ -355,7 +447,11 @@ AllU == <<
     Cand("u37", <<TSL(REF(vT), "#N")>>, vT),                               \* 37 REF nested in a TSL element
     Cand("u38", <<TSB(SIG, REF(TS(vS)))>>, TS(vS)),                        \* 38 SIGNAL / REF nested in bundle fields
     Cand("u39", <<TSD(vK, REF(vV))>>, REF(vV)),                            \* 39 same shape as u11 up to REF: always ties
-    Cand("u40", <<TSL(SIG, "0")>>, SIG) >>                                 \* 40 SIGNAL nested in a TSL element
+    Cand("u40", <<TSL(SIG, "0")>>, SIG),                                   \* 40 SIGNAL nested in a TSL element
+    Cand("u41", <<TSi>>, TSL(TSi, "#N")),                                  \* 41 } output SIZE variable that no input binds:
+    Cand("u42", <<TSL(vT, "2")>>, TSL(vT, "#N")),                          \* 42 } never a match ("output type could not be
+    Cand("u43", <<TSL(TS(vS), "#N")>>, TSL(TS(vS), "#M")),                 \* 43 } resolved"); 43 binds another size variable
+    Cand("u44", <<vT>>, TSL(vT, "#N")) >>                                  \* 44 }
 
 AllB == <<
     Cand("b01", <<vT, vT>>, vT),                                           \*  1 repeated whole-TS variable
@@ -391,11 +487,35 @@ AllB == <<
     Cand("b31", <<TSD(vK, REF(TS(vS))), TS(vS)>>, TS(vS)),                 \* 31 nested REF sharing its variable
     Cand("b32", <<SInt, SFlt>>, TSi),                                      \* 32 } two concrete scalar parameters, crossed
     Cand("b33", <<SFlt, SInt>>, TSf),                                      \* 33 }
-    Cand("b34", <<TSD(vK, SIG), TS(vK)>>, TSS(vK)) >>                      \* 34 nested SIGNAL
+    Cand("b34", <<TSD(vK, SIG), TS(vK)>>, TSS(vK)),                        \* 34 nested SIGNAL
+    Cand("b35", <<TSL(vT, "#N"), TSi>>, TSL(vT, "#M")),                    \* 35 } output size variable that no input binds
+    Cand("b36", <<TSi, TSi>>, TSL(TSi, "#N")) >>                           \* 36 }
 
-AllC == AllU \o AllB
+(* variadic candidates: the last pattern is the tail *)
+AllV == <<
+    VCand("v01", <<TS(vS)>>, TSi),                                         \*  1 f(*a: TS[S]): tail-only variable, heterogeneous tails match
+    VCand("v02", <<vT>>, TSi),                                             \*  2 f(*a: T): the most general fallback
+    VCand("v03", <<TSi>>, TSi),                                            \*  3 f(*a: TS[int])
+    VCand("v04", <<TS(vS), TS(vS)>>, TS(vS)),                              \*  4 f(x: TS[S], *a: TS[S]): the fixed binding constrains every tail argument
+    VCand("v05", <<vT, vT>>, vT),                                          \*  5 f(x: T, *a: T)
+    VCand("v06", <<TS(vS), TS(vR)>>, TS(vS)),                              \*  6 f(x: TS[S], *a: TS[R]): independent tail variable
+    VCand("v07", <<TS(vS)>>, TS(vS)),                                      \*  7 output variable bound by the tail only: never a match
+    VCand("v08", <<TSL(vT, "#N")>>, TSi),                                  \*  8 size variable in the tail: lists of different sizes match
+    VCand("v09", <<TSi, TSL(TS(vS), "#N")>>, TSi),                         \*  9
+    VCand("v10", <<vS, TS(vS)>>, TS(vS)),                                  \* 10 f(k: S, *a: TS[S]): a scalar parameter binds the tail's variable
+    VCand("v11", <<REF(vT)>>, TSi),                                        \* 11 REF tail
+    VCand("v12", <<SIG>>, TSi),                                            \* 12 SIGNAL tail: any time-series, no plain values
+    VCand("v13", <<TSi, TSi>>, TSi),                                       \* 13 f(x: TS[int], *a: TS[int]): rival of the fixed-arity b05
+    VCand("v14", <<Conc(TSi)>>, TSi),                                      \* 14 concrete leaf tail
+    VCand("v15", <<TSD(vK, vV), TS(vK)>>, vV),                             \* 15 f(d: TSD[K, V], *keys: TS[K])
+    VCand("v16", <<TSL(vT, "#N"), TSL(vT, "#N")>>, TSL(vT, "#N")),         \* 16 fixed size variable constrains the tail
+    VCand("v17", <<TSi, TSL(TSi, "#N")>>, TSL(TSi, "#N")),                 \* 17 output size variable bound by the tail only: never a match
+    VCand("v18", <<TS(vS), TS(vS), TS(vS)>>, TS(vS)) >>                    \* 18 two fixed parameters + tail
+
+AllC == AllU \o AllB \o AllV
 NU == Len(AllU)
 NB == Len(AllB)
+NV == Len(AllV)
 
 ArgsU == <<
     <<TSi>>, <<TSf>>, <<TSL(TSi, "2")>>, <<TSL(TSi, "3")>>, <<TSD(SInt, TSf)>>, <<TSD(SStr, TSs)>>,                 \* 1-6
@@ -414,6 +534,18 @@ ArgsB == <<
     <<TSS(SInt), TSi>>, <<TSS(SInt), TSs>>, <<REF(TSi), REF(TSi)>>, <<REF(TSi), TSf>>, <<TSi, SIG>>,                \* 25-29
     <<TSS(SInt), SIG>>, <<TSB(TSi, TSf), TSi>>, <<TSB(TSi, TSf), TSf>>, <<TSL(TSi, "0"), TSL(TSi, "2")>>,           \* 30-33
     <<TSD(SStr, TSi), TSi>>, <<TSD(SStr, TSi), TSf>>, <<SFlt, SFlt>> >>                                            \* 34-36
+
+(* argument tuples of the variadic families: lengths 0..4, time-series and plain values in the tail, heterogeneous *)
+ArgsV == <<
+    <<>>, <<TSi>>, <<SInt>>, <<TSf>>, <<SStr>>,                                                                    \* 1-5
+    <<TSi, TSi>>, <<TSi, TSf>>, <<SInt, SStr>>, <<SInt, SInt>>, <<TSi, SInt>>, <<TSi, SFlt>>, <<SInt, TSi>>,        \* 6-12
+    <<TSi, TSi, TSi>>, <<TSi, TSf, TSs>>, <<TSi, SInt, SStr>>, <<SInt, SFlt, SStr>>, <<TSi, SInt, SInt>>,           \* 13-17
+    <<TSi, TSi, TSi, TSi>>, <<TSi, TSf, TSi, SStr>>, <<TSi, TSi, SInt, TSf>>,                                       \* 18-20
+    <<TSL(TSi, "2"), TSL(TSi, "3")>>, <<TSL(TSi, "2"), TSL(TSi, "2"), TSL(TSi, "2")>>,                              \* 21-22
+    <<TSL(TSi, "2"), TSL(TSf, "2"), TSi>>, <<TSi, TSL(TSi, "2"), TSL(TSf, "3")>>,                                   \* 23-24
+    <<TSD(SInt, TSf), TSi, SInt>>, <<TSD(SInt, TSf), TSi, TSf>>, <<TSD(SInt, TSf)>>,                                \* 25-27
+    <<REF(TSi), TSi>>, <<TSi, REF(TSi), SInt>>, <<SIG, TSi>>,                                                      \* 28-30
+    <<SInt, TSi, SInt>>, <<SInt, TSi, TSf>>, <<SStr, SStr, TSs>>, <<SInt, TSi, SFlt>> >>                           \* 31-34
 
 -----------------------------------------------------------------------------
 (* LEVEL A, continued: a formula-independent consequence of "most specific" - pattern subsumption.                   *)
@@ -473,7 +605,8 @@ GenP(p, q, i) ==
 RECURSIVE GenFrom(_, _, _)
 GenFrom(ps, qs, i) == IF i > Len(ps) THEN Good3({}) ELSE Both3(GenP(ps[i], qs[i], i), GenFrom(ps, qs, i + 1))
 Functional3(cs) == \A x, y \in cs : x[1] = y[1] => (x[2] = y[2] /\ x[3] = y[3])
-GenC(P, Q) == Len(P.ps) = Len(Q.ps) /\ LET w == GenFrom(P.ps, Q.ps, 1) IN w.ok /\ Functional3(w.cs)
+GenC(P, Q) == ~P.v /\ ~Q.v /\ Len(P.ps) = Len(Q.ps)            \* subsumption is asserted between fixed-arity candidates only
+              /\ LET w == GenFrom(P.ps, Q.ps, 1) IN w.ok /\ Functional3(w.cs)
 
 Universe(n) == IF n = 1 THEN Range(ArgsU) ELSE IF n = 2 THEN Range(ArgsB) ELSE {}
 MoreGeneral(P, Q) == GenC(P, Q) /\ \E a \in Universe(Len(P.ps)) : MatchesA(P, a) /\ ~MatchesA(Q, a)
@@ -506,14 +639,15 @@ GenSoundOn(P, Q) == GenC(P, Q) => \A a \in Universe(Len(P.ps)) : ParamsAccept(Q,
 (* strictly more specific for these arguments: p must neither be selected nor be reported as sharing the best        *)
 (* specificity with q.                                                                                               *)
 ExactOver(q, p, args) ==
-    /\ Len(q.ps) = Len(p.ps) /\ Len(args) = Len(p.ps)
+    /\ q.v = p.v /\ Len(q.ps) = Len(p.ps) /\ (IF p.v THEN Len(args) >= NFixed(p) ELSE Len(args) = Len(p.ps))
     /\ \A i \in 1..Len(p.ps) : p.ps[i] = q.ps[i]
-                                \/ (p.ps[i].k = "sc" /\ q.ps[i].k = "sc" /\ args[i].k = "sc" /\ q.ps[i] = args[i])
+                                \/ (i <= NFixed(p) /\ p.ps[i].k = "sc" /\ q.ps[i].k = "sc" /\ args[i].k = "sc" /\ q.ps[i] = args[i])
     /\ \E i \in 1..Len(p.ps) : p.ps[i] # q.ps[i]
 
 (* "a candidate whose parameters really match must not be dropped": rej = the labels the resolver reports as rejected *)
 RejFail(cands, args, rej) ==
-    IF \E c \in cands : c.l \in rej /\ MatchesA(c, args) THEN "C19.candidate_whose_parameters_match_the_arguments_was_rejected"
+    IF \E c \in cands : c.l \in rej /\ ~c.v /\ MatchesA(c, args) THEN "C19.candidate_whose_parameters_match_the_arguments_was_rejected"
+    ELSE IF \E c \in cands : c.l \in rej /\ c.v /\ MatchesA(c, args) THEN "C19.matching_variadic_candidate_rejected"
     ELSE ""
 
 AFail(cands, args, rk, o) ==
